@@ -710,6 +710,10 @@ func (rs *s3ClientStorage) CopyObject(ctx context.Context, srcBucket storage.Buc
 		input.CopySourceIfNoneMatch = opts.CopySourceConditions.IfNoneMatch
 		input.CopySourceIfModifiedSince = opts.CopySourceConditions.IfModifiedSince
 		input.CopySourceIfUnmodifiedSince = opts.CopySourceConditions.IfUnmodifiedSince
+		if opts.ReplaceTags {
+			input.TaggingDirective = types.TaggingDirectiveReplace
+			input.Tagging = encodeTagging(opts.Tags)
+		}
 	}
 
 	copyObjectResult, err := rs.s3Client.CopyObject(ctx, input)
